@@ -33,6 +33,10 @@ func (SMEnabled) Name() string {
 type UnAckQueue struct {
 	Uslice []*UnAckedStz
 	sync.RWMutex
+	// lastId is the highest sequence number ever assigned by Push, so that numbering does not
+	// start again from 1 when acknowledgements have emptied the queue: sequence numbers count
+	// the stanzas sent on the session, as the "h" reported by the server does.
+	lastId int
 }
 type UnAckedStz struct {
 	Id  int
@@ -108,8 +112,8 @@ func (uaq *UnAckQueue) Push(s Queueable) error {
 	if uaq == nil {
 		return nil
 	}
-	pushIdx := 1
-	if len(uaq.Uslice) != 0 {
+	pushIdx := uaq.lastId + 1
+	if len(uaq.Uslice) != 0 && uaq.Uslice[len(uaq.Uslice)-1].Id >= pushIdx {
 		pushIdx = uaq.Uslice[len(uaq.Uslice)-1].Id + 1
 	}
 
@@ -124,6 +128,7 @@ func (uaq *UnAckQueue) Push(s Queueable) error {
 	}
 
 	uaq.Uslice = append(uaq.Uslice, &e)
+	uaq.lastId = pushIdx
 
 	return nil
 }
